@@ -146,9 +146,10 @@ LEVEL_TEXT = ("Proved in Lean 4: for all integers i0, i1 and every nth >= 1 the 
               "completion and finished() is then true (handover_safe, runs_once_and_join, finished_after_join, never_twice), for "
               "function threads and for subclassed threads; a counting semaphore conserves posts and refuses a wait only at count 0; "
               "under the documented protocol a condition-variable waiter is never asleep after the signal and can always progress "
-              "once the signaler is done. Tie: the index loop, thread kinds and semaphore are compared op by op with the real library "
+              "once the signaler is done, for one waiter and for any number n of waiters with a broadcasting signal "
+              "(condition_no_lost_signal, condition_no_lost_signal_n). Tie: the index loop, thread kinds and semaphore are compared op by op with the real library "
               "(all ranges -3..40 x nth), and every hook-point trace of the real creator/worker hand-over, enumerated over all "
               "interleavings of small scenarios by a deterministic scheduler, must be accepted by the Lean model (trace inclusion).")
 LEVEL_NOTE = ("Trusted: pthread/sem/cond semantics as modelled, sequential consistency of the volatile flags, the scheduler harness and "
-              "the trace acceptor. The semaphore and condition models are single-waiter abstractions of POSIX primitives (asl only wraps "
+              "the trace acceptor. The semaphore and condition models are abstractions of the POSIX primitives (asl only wraps "
               "them); int overflow of the loop variable is excluded by hypothesis.")
